@@ -439,13 +439,14 @@ Definition f_pop (h : heap) (v : mvalue) : mres (heap * mvalue * mvalue) :=
 (* ---------- environment ---------- *)
 Definition scope := list (nat * mvalue).         (* newest binding first *)
 
-Fixpoint scope_find (x : nat) (sc : scope) : option mvalue :=
+(* the lookup/update functions are shared with the reclamation-free machine (A = Lang.value) *)
+Fixpoint scope_find {A} (x : nat) (sc : list (nat * A)) : option A :=
   match sc with
   | [] => None
   | (y, v) :: t => if Nat.eqb x y then Some v else scope_find x t
   end.
 
-Fixpoint scope_set (x : nat) (v : mvalue) (sc : scope) : option scope :=
+Fixpoint scope_set {A} (x : nat) (v : A) (sc : list (nat * A)) : option (list (nat * A)) :=
   match sc with
   | [] => None
   | (y, w) :: t =>
@@ -453,13 +454,13 @@ Fixpoint scope_set (x : nat) (v : mvalue) (sc : scope) : option scope :=
       else match scope_set x v t with Some t' => Some ((y, w) :: t') | None => None end
   end.
 
-Fixpoint env_find (x : nat) (e : list scope) : option mvalue :=
+Fixpoint env_find {A} (x : nat) (e : list (list (nat * A))) : option A :=
   match e with
   | [] => None
   | sc :: t => match scope_find x sc with Some v => Some v | None => env_find x t end
   end.
 
-Fixpoint env_set (x : nat) (v : mvalue) (e : list scope) : option (list scope) :=
+Fixpoint env_set {A} (x : nat) (v : A) (e : list (list (nat * A))) : option (list (list (nat * A))) :=
   match e with
   | [] => None
   | sc :: t =>
@@ -792,32 +793,10 @@ Record astate := mkASt {
   a_env : list ascope; a_out : list value; a_tmps : list value; a_ctl : list actl }.
 Definition ainit : astate := mkASt [[]] [] [] [].
 
-Fixpoint ascope_find (x : nat) (sc : ascope) : option value :=
-  match sc with
-  | [] => None
-  | (y, v) :: t => if Nat.eqb x y then Some v else ascope_find x t
-  end.
-Fixpoint ascope_set (x : nat) (v : value) (sc : ascope) : option ascope :=
-  match sc with
-  | [] => None
-  | (y, w) :: t =>
-      if Nat.eqb x y then Some ((y, v) :: t)
-      else match ascope_set x v t with Some t' => Some ((y, w) :: t') | None => None end
-  end.
-Fixpoint aenv_find (x : nat) (e : list ascope) : option value :=
-  match e with
-  | [] => None
-  | sc :: t => match ascope_find x sc with Some v => Some v | None => aenv_find x t end
-  end.
-Fixpoint aenv_set (x : nat) (v : value) (e : list ascope) : option (list ascope) :=
-  match e with
-  | [] => None
-  | sc :: t =>
-      match ascope_set x v sc with
-      | Some sc' => Some (sc' :: t)
-      | None => match aenv_set x v t with Some t' => Some (sc :: t') | None => None end
-      end
-  end.
+Notation ascope_find := (@scope_find value) (only parsing).
+Notation ascope_set := (@scope_set value) (only parsing).
+Notation aenv_find := (@env_find value) (only parsing).
+Notation aenv_set := (@env_set value) (only parsing).
 
 Fixpoint amodify_at {R : Type} (f : value -> option (value * R)) (path : list nat) (v : value)
   {struct path} : option (value * R) :=
